@@ -77,6 +77,9 @@ Max(a, b) == IF a > b THEN a ELSE b
 (*        Span(k) in {T/4-1, T/4, T/4+1, T-1, T, T+1, 4T-1, 4T, 4T+1};      *)
 (*        rt2 chains have a real first retarget (target limit/4), so both  *)
 (*        clamps, the cap and the BIP94 base are observable                *)
+(*   rt3-net-k              H = 4032 after a second period whose last      *)
+(*        block is stamped before / 1 s before / at the time of its first  *)
+(*        block: negative and zero timespans (clamped to T/4)              *)
 (*   pr1, pr2, pr3          H = 2017, 2018, 4034: the 20-minute rule and    *)
 (*        its walk-back after a real retarget                              *)
 
@@ -94,18 +97,28 @@ Span(k) == CASE k = 1 -> (T \div 4) - 1 [] k = 2 -> T \div 4 [] k = 3 -> (T \div
 Q == T \div 4      \* 302400: the first period of the two-period chains lasts exactly T/4
 R1 == <<Q>>
 
+\* negative / zero timespans of the second period: its last block is stamped before / at the time of its first block
+\* (legal: a timestamp is only bounded from below by the median of the previous 11)
+NSpan(k) == CASE k = 1 -> 4031 - (Q + 1) [] k = 2 -> -1 [] k = 3 -> 0
+
 Rt1Segs == << [from |-> 0, t |-> 0, step |-> 1, bits |-> Limit] >>
 Rt2Segs == << [from |-> 0, t |-> 0, step |-> 1, bits |-> Limit],
               [from |-> 2015, t |-> Q, step |-> 1, bits |-> Limit],
               [from |-> 2016, t |-> Q + 1, step |-> 1, bits |-> R1] >>
 
+\* as Rt2Segs, but the second period runs on the old clock: blocks 2017.. carry the times 2017.. (all before block 2016)
+Rt3Segs == << [from |-> 0, t |-> 0, step |-> 1, bits |-> Limit],
+              [from |-> 2015, t |-> Q, step |-> 1, bits |-> Limit],
+              [from |-> 2016, t |-> Q + 1, step |-> 1, bits |-> R1],
+              [from |-> 2017, t |-> 2017, step |-> 1, bits |-> R1] >>
+
 AllOn  == [b34 |-> 1, b66 |-> 1, b65 |-> 1, csv |-> 1, sw |-> 1]
 Deps   == {"b34", "b66", "b65", "csv", "sw"}
 ActAll(a) == [x \in Deps |-> a]
 
-AllFields == {"pow", "bits", "time", "ver", "cb", "cblen", "b34", "lock", "seqfin", "ltx", "merkle", "commit", "witdata", "weight"}
+AllFields == {"pow", "bits", "time", "ver", "cb", "cblen", "b34", "lock", "seqfin", "ltx", "ntx", "merkle", "commit", "witdata", "weight"}
 HdrFields == {"pow", "bits", "time"}
-NoTxFields == AllFields \ {"ltx", "witdata", "weight"}
+NoTxFields == AllFields \ {"ltx", "ntx", "witdata", "weight"}
 
 PlainBits == {"harder", "above", "neg", "zero", "ovf"}
 RtBits    == PlainBits \cup {"parent", "limit", "unclamped", "otherbase", "walk"}
@@ -126,7 +139,7 @@ AllBut(x, a)  == [y \in Deps |-> IF y = x THEN a ELSE 1]
 
 \* context ids are tuples <<family, ...>>; Name gives the string used in cfg files and in the export
 ActCtxIds == { <<k, x>> : k \in {"at", "next", "prev"}, x \in Deps }
-RtIds     == { <<r, n, k>> : r \in {"rt1", "rt2"}, n \in Nets, k \in 1..9 }
+RtIds     == { <<r, n, k>> : r \in {"rt1", "rt2"}, n \in Nets, k \in 1..9 } \cup { <<"rt3", n, k>> : n \in Nets, k \in 1..3 }
 PrIds     == { <<r, n>> : r \in {"pr1", "pr2", "pr3"}, n \in Nets }
 ShortIds  == { <<"short", p>> : p \in {0, 1, 2, 5, 10, 15, 16} }
 MiscIds   == { <<"on">>, <<"off">>, <<"h255">>, <<"h256">>, <<"plain", "main">>, <<"plain", "test3">> }
@@ -151,6 +164,8 @@ CtxRaw(id) ==
       [] id[1] = "rt1"  -> MkCtx(id, id[2], 2015, Rt1Segs, [i \in 1..11 |-> IF i = 11 THEN Span(id[3]) ELSE 2004 + i],
                                  AllOn, FALSE, HdrFields, RtBits, RtTime, {"B0"})
       [] id[1] = "rt2"  -> MkCtx(id, id[2], 4031, Rt2Segs, [i \in 1..11 |-> IF i = 11 THEN Q + 1 + Span(id[3]) ELSE Q + 1 + (4020 + i - 2016)],
+                                 AllOn, FALSE, HdrFields, RtBits, RtTime, {"B0"})
+      [] id[1] = "rt3"  -> MkCtx(id, id[2], 4031, Rt3Segs, [i \in 1..11 |-> IF i = 11 THEN Q + 1 + NSpan(id[3]) ELSE 4020 + i],
                                  AllOn, FALSE, HdrFields, RtBits, RtTime, {"B0"})
       [] id[1] = "pr1"  -> MkCtx(id, id[2], 2016, Rt2Segs, [i \in 1..11 |-> IF i = 11 THEN Q + 1 ELSE IF i = 10 THEN Q ELSE 2005 + i],
                                  AllOn, FALSE, HdrFields, RtBits, RtTime, {"B0"})
@@ -250,6 +265,7 @@ Ctx(id) == CtxTab[id]
 Base(c, b) ==
     [pow |-> "ok", bits |-> "req", time |-> "p+600", ver |-> "4", cb |-> "first", cblen |-> "normal",
      b34 |-> "correct", lock |-> "zero", seqfin |-> FALSE, ltx |-> IF c.txs THEN "tx" ELSE "cb",
+     ntx |-> IF c.txs THEN 3 ELSE 1,
      merkle |-> "correct", commit |-> IF b = "B1" THEN "correct" ELSE "absent",
      witdata |-> (b = "B1" /\ c.txs), weight |-> "normal"]
 
@@ -266,7 +282,8 @@ Alts(c, f) ==
       [] f = "lock"    -> {"zero", "h-1", "h", "h+1", "mtp-1", "mtp", "mtp+1", "bt-1", "bt", "bt+1"}
       [] f = "seqfin"  -> BOOLEAN
       [] f = "ltx"     -> {"tx", "cb"}
-      [] f = "merkle"  -> IF c.txs THEN {"correct", "wrong", "duptail"} ELSE {"correct", "wrong"}
+      [] f = "ntx"     -> IF c.txs THEN {3, 5, 6, 7, 12} ELSE {1}     \* transactions incl. the coinbase (layout "first")
+      [] f = "merkle"  -> IF c.txs THEN {"correct", "wrong", "dup1", "dup2", "dup4"} ELSE {"correct", "wrong"}
       [] f = "commit"  -> Commits
       [] f = "witdata" -> BOOLEAN
       [] f = "weight"  -> IF Name(c.id) \in HeavyCtx THEN {"normal", "max", "over"} ELSE {"normal"}
@@ -315,7 +332,9 @@ BitsTerm(c, d) ==
       [] d.bits = "parent" -> BitsAt(c, c.P)
       [] d.bits = "limit"  -> Limit
       [] d.bits = "walk"   -> WalkBack(c, c.P)
-      [] d.bits = "unclamped" -> IF H(c) % Interval = 0 THEN Norm(Append(RetargetBase(c, H(c)), RawSpan(c))) ELSE r
+      [] d.bits = "unclamped" -> IF H(c) % Interval # 0 THEN r
+                                 ELSE IF RawSpan(c) <= 0 THEN <<-4>>     \* base * span / T for span <= 0: no positive target
+                                 ELSE Norm(Append(RetargetBase(c, H(c)), RawSpan(c)))
       [] d.bits = "otherbase" -> IF H(c) % Interval = 0
                                  THEN Norm(Append(IF c.net = "test4" THEN BitsAt(c, c.P) ELSE BitsAt(c, H(c) - Interval), Clamp(RawSpan(c))))
                                  ELSE r
@@ -326,6 +345,14 @@ VerNum(v) == CASE v = "0" -> 0 [] v = "1" -> 1 [] v = "2" -> 2 [] v = "3" -> 3 [
                [] v = "big" -> 536870912 [] v = "neg" -> -1
 
 PushLen(h) == IF h <= 16 THEN 1 ELSE IF h <= 127 THEN 2 ELSE IF h <= 32767 THEN 3 ELSE IF h <= 8388607 THEN 4 ELSE 5
+
+\* CVE-2012-2459: a transaction list whose node count is odd at some tree level can be extended by a copy of its last
+\* 2^j transactions without changing the merkle root. dupK = the list followed by a copy of its last K transactions;
+\* only the root-preserving combinations are enumerated (DupFeasible).
+Dups == {"dup1", "dup2", "dup4"}
+DupK(d) == CASE d.merkle = "dup1" -> 1 [] d.merkle = "dup2" -> 2 [] d.merkle = "dup4" -> 4 [] OTHER -> 0
+TotalTx(d) == CASE d.cb \in {"first", "notfirst"} -> d.ntx [] d.cb = "none" -> d.ntx - 1 [] d.cb = "two" -> d.ntx + 1 [] OTHER -> 0
+DupFeasible(d) == d.merkle \in Dups => LET n == TotalTx(d) k == DupK(d) IN n % k = 0 /\ (n \div k) % 2 = 1 /\ n \div k > 1
 
 HasBody(d)     == d.cb \notin {"notx80", "notx81"}
 HasCoinbase(d) == d.cb \in {"first", "two", "notfirst"}
@@ -397,7 +424,7 @@ Violations(c, d) ==
       \cup (IF CbFirst(d) /\ Active(c, "b34") /\ ~Bip34OK(c, d) THEN {"cb-height"} ELSE {})
       \cup (IF LockedTxPresent(c, d) /\ ~Final(c, d) THEN {"nonfinal"} ELSE {})
       \cup (IF d.merkle = "wrong" THEN {"merkle"} ELSE {})
-      \cup (IF d.merkle = "duptail" THEN {"mutated"} ELSE {})
+      \cup (IF d.merkle \in Dups THEN {"mutated"} ELSE {})
       \cup (IF ~Active(c, "sw") \/ d.commit = "absent" \/ ~CbFirst(d)
             THEN (IF AnyWitness(c, d) THEN {"wit-unexpected"} ELSE {})
             ELSE (IF d.commit \in {"wrong", "two_lastbad"} THEN {"wit-commit"} ELSE {})
@@ -427,6 +454,7 @@ Deviate(f, v) ==
     /\ v \in Alts(c, f) \ {d[f]}
     /\ Cardinality(devs) < MaxDev(cid)
     /\ (f = "weight" \/ "weight" \in devs) => (devs = {} \/ HeavyPairs)
+    /\ DupFeasible([d EXCEPT ![f] = v])
     /\ d' = [d EXCEPT ![f] = v]
     /\ devs' = devs \cup {f}
     /\ UNCHANGED <<cid, bid>>
@@ -467,6 +495,8 @@ Anchors ==
     /\ (devs = {"cblen"}) => (Valid(C, d) <=> (d.cblen = "100" \/ (d.cblen = "2" /\ (PushLen(H(C)) <= 2 \/ ~Active(C, "b34")))))
     /\ (devs = {"b34"}) => (Valid(C, d) <=> ~Active(C, "b34"))
     /\ d.merkle # "correct" => ~Valid(C, d)
+    /\ devs = {"ntx"} => Valid(C, d)
+    /\ DupFeasible(d)
     /\ d.weight = "over" => ~Valid(C, d)
     /\ (devs = {"weight"} /\ d.weight = "max") => Valid(C, d)
     /\ (devs = {"bits"}) => (Valid(C, d) <=> BitsTerm(C, d) = ReqBits(C, B))
@@ -475,6 +505,8 @@ Anchors ==
             ReqBits(C, d) = (IF cid[3] = 5 THEN <<Q>> ELSE <<Q, CASE cid[3] <= 2 -> Q [] cid[3] >= 8 -> 4 * T [] OTHER -> Span(cid[3])>>)
     /\ (cid[1] = "rt2" /\ devs = {} /\ cid[2] = "test3") =>
             ReqBits(C, d) = (IF cid[3] <= 2 THEN <<Q>> ELSE IF cid[3] = 3 THEN <<Q + 1>> ELSE IF cid[3] = 4 THEN <<T - 1>> ELSE Limit)
+    /\ (cid[1] = "rt3" /\ devs = {}) => (RawSpan(C) <= 0 /\
+            ReqBits(C, d) = (IF cid[2] = "test3" /\ cid[3] >= 2 THEN <<Q>> ELSE <<Q, Q>>))
     /\ (cid = <<"pr1", "main">> /\ devs = {"time"}) => ReqBits(C, d) = R1
     /\ (cid[1] = "pr1" /\ cid[2] # "main" /\ devs = {"time"}) => (ReqBits(C, d) = IF d.time \in {"p+1201", "now+7200", "now+7201"} THEN Limit ELSE R1)
     /\ (cid[1] = "pr2" /\ cid[2] # "main" /\ devs = {}) => (BitsAt(C, C.P) = Limit /\ ReqBits(C, d) = R1)
